@@ -1012,6 +1012,28 @@ fn ends_with(needle: &[u8], haystack: &[u8]) -> bool {
     needle == &haystack[haystack.len() - needle.len()..]
 }
 
+/// Verification hook: the match strategy a glob set would choose for this
+/// glob, as (kind, literal, component). Only with the `verif-hooks` feature.
+#[cfg(feature = "verif-hooks")]
+impl Glob {
+    #[allow(missing_docs)]
+    pub fn verif_strategy(&self) -> (&'static str, String, bool) {
+        match MatchStrategy::new(self) {
+            MatchStrategy::Literal(s) => ("Literal", s, false),
+            MatchStrategy::BasenameLiteral(s) => ("BasenameLiteral", s, false),
+            MatchStrategy::Extension(s) => ("Extension", s, false),
+            MatchStrategy::Prefix(s) => ("Prefix", s, false),
+            MatchStrategy::Suffix { suffix, component } => {
+                ("Suffix", suffix, component)
+            }
+            MatchStrategy::RequiredExtension(s) => {
+                ("RequiredExtension", s, false)
+            }
+            MatchStrategy::Regex => ("Regex", String::new(), false),
+        }
+    }
+}
+
 #[cfg(test)]
 mod tests {
     use super::Token::*;
